@@ -352,6 +352,14 @@
 		call $heap_alignment8
 		local.set $size
 
+		;; size 为 0 时按最小块(8字节)分配, 否则会命中 size=0 的 l128 链表头节点
+		local.get $size
+		i32.eqz
+		if
+			i32.const 8
+			local.set $size
+		end
+
 		;; 根据大小返回对应空闲链表的地址
 		;; 并返回对齐到8字节的大小
 		;; $free_list, $size = $heap_free_list_header.ptr_and_fixed_size(size)
